@@ -99,7 +99,7 @@ def analyse(repo=None):
     if len(tries) != 1:
         raise TranslationError("worker_loop: expected exactly one per-message try statement, found %d" % len(tries))
     tr = tries[0]
-    if len(tr.handlers) != 1 or tr.handlers[0].type is None or _u(tr.handlers[0].type) not in ("Exception", "BaseException"):
+    if len(tr.handlers) != 1 or tr.handlers[0].type is None or _u(tr.handlers[0].type) not in ("Exception", "BaseException", "(Exception, SystemExit)"):   # (a wider handler reports more failures, never fewer)
         raise TranslationError("worker_loop: per-message try must have exactly one `except Exception` handler")
     if tr.finalbody and reports(tr.finalbody):
         raise TranslationError("worker_loop: status published in a finally block (unmodelled)")
